@@ -57,7 +57,13 @@ def op_strategy():
 
 def strategy(tier):
     n = 25 if tier == 'quick' else 40
-    return st.fixed_dictionaries({'ops': st.lists(op_strategy(), min_size=1, max_size=n)})
+    free = st.lists(op_strategy(), min_size=1, max_size=n)
+    # a bucket (6-byte prefix) that becomes empty and is used again, with and without a save/load in between
+    pre, suf = st.sampled_from(PREFIXES), st.sampled_from(SUFFIXES)
+    again = st.tuples(st.lists(op_strategy(), max_size=6), pre, suf, suf, value, value, st.booleans(), st.lists(op_strategy(), max_size=8)).map(
+        lambda t: t[0] + [['set', (t[1] << 16) | t[2], t[4]], ['del', (t[1] << 16) | t[2]]]
+        + ([['saveload', 7]] if t[6] else []) + [['set', (t[1] << 16) | t[3], t[5]], ['q', 'get', (t[1] << 16) | t[3]], ['q', 'len', 0]] + t[7])
+    return st.fixed_dictionaries({'ops': st.one_of(free, free.map(list), free.map(tuple).map(list), again)})
 
 
 def extra_cases(tier, seed, w, nw):
